@@ -132,7 +132,7 @@ PROPS = {
         'assumptions': [
             'spawn.read_nonblocking is used through its interface contract (data | EOF | TIMEOUT | other OSError); that a transport reports EOF again without blocking after the first EOF is not under contract here (pty: blocking isalive() inside ptyprocess, see DESIGN.md section 7 #10)',
             'str(spawn) used to build the exception message is proved total (pty spawn.__str__; the other classes inherit object.__str__); str(searcher) and the __str__ of user-supplied log files are assumed total',
-            'expect(), expect_exact(), read(size <= 0) and readline() are under contract (the delimiter is the default, EOF); read(size > 0), readlines(), __iter__ delegate to the entry points above and are not separately under contract in this check',
+            'expect(), expect_exact(), read(), readline() and readlines() are under contract (the delimiter is the default, EOF); __iter__ (iter(self.readline, '')) delegates to the entry points above and are not separately under contract in this check',
         ],
     },
     'C05': {
@@ -155,7 +155,7 @@ PROPS = {
     },
     'C10': {
         'contracts': [PTYC + 'isalive', PTYC + 'wait', PTYC + 'kill', PTYC + 'terminate', PTYC + 'close',
-                      'pexpect.fdpexpect.fdspawn.close', 'pexpect.fdpexpect.fdspawn.isalive',
+                      'pexpect.fdpexpect.fdspawn.close', 'pexpect.fdpexpect.fdspawn.isalive', ('pexpect.popen_spawn.PopenSpawn.__init__', 'ctx:ctor'),
                       (SB + '__exit__', 'pexpect.pty_spawn.spawn'), 'pexpect.pty_spawn.spawn.read_nonblocking',
                       'pexpect.socket_pexpect.SocketSpawn.close'],
         'assumptions': [
@@ -237,7 +237,7 @@ PROPS = {
     },
     'C01': {
         'contracts': [E + 'do_search', E + 'existing_data', E + 'new_data', E + 'eof', E + 'timeout', E + 'errored', E + 'expect_loop',
-                      SB + '_set_buffer', SB + 'expect_list', SB + 'expect_loop', SB + 'expect', SB + 'expect_exact', SB + 'read', SB + 'readline'],
+                      SB + '_set_buffer', SB + 'expect_list', SB + 'expect_loop', SB + 'expect', SB + 'expect_exact', SB + 'read', SB + 'readline', SB + 'readlines'],
         'assumptions': [
             'io.BytesIO/StringIO behave as (content, position) with write-at-position, read-to-end, seek, tell, getvalue (differentially tested against CPython in the thorough tier)',
             'str/bytes slicing, concatenation and len follow CPython semantics (integers mathematical)',
